@@ -33,6 +33,7 @@ type flowAux struct {
 	UploadTags    map[uint32]string
 	ClientReset   map[uint32]bool
 	EarlyAnswer   map[string]bool // tags the back-end answers without reading the upload
+	ServerReset   []uint32        // streams the client made the server reset (zero WINDOW_UPDATE)
 	Overdeclared  int
 	ConnOverflow  bool
 	UploadOverrun uint32 // stream on which the client exceeds the server's window (0: none)
@@ -342,7 +343,15 @@ func drawFlow(t *rapid.T, check string) *Case {
 				continue
 			}
 			aux.ClientReset[id] = true
-			write(RSTFrame(id, ErrCancel))
+			if drawBool(t, "zerowu", 30) {
+				// not a reset of the client's but a stream error of its making: a WINDOW_UPDATE with
+				// increment 0 on the stream; the server resets the stream itself, and that RST_STREAM
+				// is a control frame - it is not to wait behind the stream's window-blocked DATA
+				write(WindowUpdateFrame(id, 0))
+				aux.ServerReset = append(aux.ServerReset, id)
+			} else {
+				write(RSTFrame(id, ErrCancel))
+			}
 			aux.Events = append(aux.Events, flowEvent{Kind: "rst", Stream: id, Write: nwrite - 1})
 		}
 		if check == "C20" && drawBool(t, "prioplay", 50) {
